@@ -200,6 +200,37 @@ def _exit_code_sites(ctx, f):
     return out
 
 
+def reap_state(ctx, rid):
+    """evaluated: what one reaped child does to the master's `reexec_pid` -- cleared (on the arbiter object, where
+    stop()/reexec() read it) exactly when the reaped pid is the re-exec'ed master"""
+    repo = ctx.repo
+    f = ctx.fn(repo.func(ARB + ".reap_workers"))
+    g = f.cfg
+    wpn = [n for c in calls_to(repo, f, "os.waitpid") for n in nodes_with(f, c)]
+    ctx.need(wpn, "%s: reap_workers never calls waitpid" % rid)
+    st = wpn[0].ast
+    ctx.need(isinstance(st, ast.Assign) and isinstance(st.targets[0], ast.Tuple) and len(st.targets[0].elts) == 2 and all(isinstance(x, ast.Name) for x in st.targets[0].elts),
+             "%s: `wpid, status = os.waitpid(..)` not recognised" % rid)
+    PID, STATUS = [x.id for x in st.targets[0].elts]
+    for reaped, reexec, want in ((777, 777, 0), (5, 777, 777), (5, 0, 0)):
+        # the whole function: entry -> first waitpid returns (reaped, 0) -> ... -> next waitpid
+        pre = Explorer(f, tracked=["self.reexec_pid"]).run(g.entry, {"self.reexec_pid": reexec}, stop=lambda n: n in wpn)
+        got = set()
+        for o0 in pre:
+            if o0.kind != "stop":
+                continue
+            env = dict(o0.env)
+            env.update({PID: reaped, STATUS: 0})
+            for b, l in o0.detail.out:
+                if l == "next":
+                    for o in Explorer(f, tracked=["self.reexec_pid"]).run(b, env, stop=lambda n: n in wpn):
+                        got.add(o.env.get("self.reexec_pid") if o.kind in ("stop", "return") else o.kind)
+        ctx.check(rid, got == {want}, key(f, "reexec-reset|%s|%s" % (reaped, reexec)), site(f, text="reaped pid %s while reexec_pid=%s" % (reaped, reexec)),
+                  "after reaping pid %s with reexec_pid=%s the arbiter's reexec_pid is %s, required %s%s" % (reaped, reexec, sorted(map(str, got)), want,
+                  ": the exit of the new master is never recorded -- USR2 is ignored forever and stop() never unlinks the unix socket" if reaped == reexec else ""),
+                  "reexec_pid -> %s" % want)
+
+
 def r4(ctx):
     repo = ctx.repo
     cls = repo.cls(ARB)
@@ -273,9 +304,15 @@ def r4(ctx):
     rows = []
     for code in sorted(set(vals) | {0, 1, 2, 5, 127, 255}):
         outs = []
-        for b, l in wpn[0].out:
-            if l == "next":
-                outs += Explorer(f_reap).run(b, {PID: 4242, STATUS: code << 8, "self.reexec_pid": 0}, stop=lambda n: n in wpn, probes=probes)
+        # entry -> first waitpid (locals set up before the loop keep their values) -> the child (4242, code << 8)
+        for o0 in Explorer(f_reap).run(g_r.entry, {"self.reexec_pid": 0}, stop=lambda n: n in wpn):
+            if o0.kind != "stop":
+                continue
+            env0 = dict(o0.env)
+            env0.update({PID: 4242, STATUS: code << 8})
+            for b, l in o0.detail.out:
+                if l == "next":
+                    outs += Explorer(f_reap).run(b, env0, stop=lambda n: n in wpn, probes=probes)
         got = set()
         for o in outs:
             hv = [e[1] for e in o.events if isinstance(e, tuple) and e[0] == "halt"]
